@@ -12,7 +12,17 @@ import traceback
 from . import tree
 
 VERIF = os.path.dirname(os.path.dirname(os.path.abspath(__file__)))
-NPROC = int(os.environ.get("VERIF_JOBS", "16"))
+def _default_jobs():
+    if os.environ.get("VERIF_JOBS"):
+        return int(os.environ["VERIF_JOBS"])
+    try:    # untracked development throttle (several agents share the machine); absent in a fresh checkout
+        with open(os.path.join(VERIF, ".jobs")) as f:
+            return int(f.read().strip())
+    except (OSError, ValueError):
+        return 16
+
+
+NPROC = _default_jobs()
 
 
 def khash(key):
